@@ -305,6 +305,24 @@ NegCallee(i, how) ==
    ELSE <<Set("f", If(Hide(WBool, B(TRUE)), Block(<<V("g")>>), Block(<<V("h")>>))), CallE(V("f"), <<t[3]>>)>>)
 NegCalleeSeq == SetToSeq({<<i, how>> : i \in 1..Len(CalleeTriples), how \in {"pick", "if"}})
 
+\* Coverage does not distribute over a union INSIDE an array, a cell or a function result: `[int|string]' is not covered by
+\* arms for `[int]' and `[string]' (a mixed array matches neither), `mut (int|string)' not by `mut int' and `mut string'.
+\* Such a match must be refused; an accepted one is run with the value no arm takes.
+IS_ == WMulti(<<WInt, WStr>>)
+NestedCov == <<
+  <<WArr(IS_), WArr(WInt), WArr(WStr), ArrE(<<I(1), S(<<97>>)>>)>>,
+  <<WArr(IS_), WArr(WInt), WArr(WStr), Bin("+", ArrE(<<I(1)>>), ArrE(<<S(<<97>>)>>))>>,
+  <<WMut(IS_), WMut(WInt), WMut(WStr), MutE(IS_, I(1))>>,
+  <<WArr(WArr(IS_)), WArr(WArr(WInt)), WArr(WArr(WStr)), ArrE(<<ArrE(<<I(1), S(<<97>>)>>)>>)>>,
+  <<WFn(<<>>, IS_), WFn(<<>>, WInt), WFn(<<>>, WStr), FnE(<<>>, IS_, <<Ret(Hide(IS_, I(1)))>>)>> >>
+NegNested(i, where) ==
+  LET t == NestedCov[i]
+      arms == <<ArmTy("y", t[2], I(1)), ArmTy("y", t[3], I(2))>> IN
+  IF where = "fn"
+  THEN <<FnDecl("kind", <<P("v", t[1])>>, WInt, <<Ret(Match(V("v"), arms))>>), CallE(V("kind"), <<t[4]>>)>>
+  ELSE <<Set("v", Hide(t[1], t[4])), Set("r", Match(V("v"), arms)), V("r")>>
+NegNestedSeq == SetToSeq({<<i, wh>> : i \in 1..Len(NestedCov), wh \in {"fn", "top"}})
+
 Init == row = 0
 Next == \/ row = 0 /\ row' \in {-c : c \in 1..Chunks}
         \/ row < 0 /\ row' \in {i \in 1..N : i % Chunks = (-row) % Chunks}
@@ -326,6 +344,9 @@ Emit ==
                                    exp |-> [status |-> "rejected", v |-> VoidV, log |-> <<>>]]]
         \o [i \in 1..Len(FallWheres) |-> [id |-> "c12t-negfall-" \o FallWheres[i], suite |-> "c12t", negative |-> TRUE,
                                    prog |-> NegFall(FallWheres[i]),
+                                   exp |-> [status |-> "rejected", v |-> VoidV, log |-> <<>>]]]
+        \o [i \in 1..Len(NegNestedSeq) |-> [id |-> "c12t-negnested-" \o ToString(NegNestedSeq[i][1]) \o NegNestedSeq[i][2], suite |-> "c12t", negative |-> TRUE,
+                                   prog |-> NegNested(NegNestedSeq[i][1], NegNestedSeq[i][2]),
                                    exp |-> [status |-> "rejected", v |-> VoidV, log |-> <<>>]]]
         \o [i \in 1..Len(NegCalleeSeq) |-> [id |-> "c12t-negcallee-" \o ToString(NegCalleeSeq[i][1]) \o NegCalleeSeq[i][2], suite |-> "c12t", negative |-> TRUE,
                                    prog |-> NegCallee(NegCalleeSeq[i][1], NegCalleeSeq[i][2]),
